@@ -1425,9 +1425,11 @@ class TransferManager(BaseManager):
                     reason = FailReason.CANCELLED
                 elif current_state == TransferState.COMPLETE:
                     reason = FailReason.COMPLETE
-                elif transfer.is_processing():
+                elif transfer.is_processing() or transfer._transfer_task is not None:
                     # Needs investigation, currently don't do anything when the
-                    # transfer is already being processed
+                    # transfer is already being processed (the state of the
+                    # transfer only changes once the task created for a
+                    # previous request starts running)
                     return
                 else:
                     # All good to download
